@@ -51,8 +51,15 @@ def units(tier, seed, only=None):
         else:
             u.timeout = 240
         us.append(u)
-    from . import c02_driver
-    us += c02_driver.units(tier, seed)
+    us.append(core.Unit('orc_executor_get_accumulator', ['contracts/executor_acc.c'], 'h_get_accumulator', enforce='orc_executor_get_accumulator', timeout=120))
+    us.append(core.Unit('orc_executor_get_accumulator_str', ['contracts/executor_acc.c'], 'h_get_accumulator_str', enforce='orc_executor_get_accumulator_str', timeout=120))
+    if tier == 'thorough':
+        # the emulation driver (orc_executor_emulate with the opcode functions stubbed) stayed undecided in three
+        # attempts of 15-30 minutes (DESIGN.md 7.5): attempted in the thorough tier only, never counted as proved
+        from . import c02_driver
+        us += c02_driver.units(tier, seed)
+    else:
+        skipped.append('orc_executor_emulate (driver: chunking, operand wiring)')
     if only:
         us = [u for u in us if re.search(only, u.name)]
     units.skipped = skipped
@@ -64,7 +71,7 @@ def run(tier, seed, only=None):
     from . import emu_replay
     return runner.run_property(PROP, us, tier, seed, replay_fn=emu_replay.replay_unit, assumptions=ASSUME,
                                extra_cov={'reference_errata': ERRATA,
-                                          'value_obligation_not_covered_in_this_tier': ['emulate_' + n for n in getattr(units, 'skipped', [])]})
+                                          'value_obligation_not_covered_in_this_tier': [(n if n.startswith('orc_') else 'emulate_' + n) for n in getattr(units, 'skipped', [])]})
 
 
 def replay(path):
